@@ -2,6 +2,7 @@ import HappyModel.C17.Spec
 import HappyModel.C17.PB
 import HappyModel.C17.Chain
 import HappyModel.C17.ML
+import HappyModel.C17.MLM
 /-! Line-protocol driver for C17 (other side: `hv/props/c17.py`). -/
 namespace HappyModel.C17.Driver
 open HappyModel.Proto HappyModel.C17
@@ -141,6 +142,50 @@ def mlRun (s : ML.St) : List Act → List String → List String
         let acc := newR.foldl (fun acc r => s!"reply {r.op} {r.txt}" :: acc) acc
         mlRun s' as (mlState s' :: acc)
 
+/-! ### multi-leader, merging resolver (same transcript format) -/
+
+def mlmEcho (s : MLM.St) (a : Act) : String :=
+  match a with
+  | .cw op n k v => s!"cw {op} {n} {k} {v}"
+  | .cr op n k => s!"cr {op} {n} {k}"
+  | .rs pid =>
+    (match s.procs pid with
+     | some p => s!"r {pid} {p.seg}"
+     | none => s!"r {pid} ?")
+  | .dl mid =>
+    (match s.msgs mid with
+     | some m =>
+       (match m.kind with
+        | .repl => s!"d {mid} {m.dst} Replicate {m.key} {m.ver.val} -"
+        | .aereq => s!"d {mid} {m.dst} AntiEntropyRequest - - -"
+        | .aeresp => s!"d {mid} {m.dst} AntiEntropyResponse - - -")
+     | none => s!"d {mid} ?")
+  | .ae n p => s!"ae {n} {p}"
+  | .tick t => s!"t {t}"
+
+def mlmState (s : MLM.St) : String :=
+  let stores := (List.range s.n).map fun i => showStore (s.store i) s.nk
+  let vers := (List.range s.n).map fun i =>
+    let xs := (List.range s.nk).filterMap fun k => (s.vers i k).map fun v => showVer k v s.n
+    if xs.isEmpty then "-" else ",".intercalate xs
+  "S " ++ " | ".intercalate stores ++ " ; V " ++ " | ".intercalate vers
+
+def mlmRun (s : MLM.St) : List Act → List String → List String
+  | [], acc => (s!"Q {showBool (MLM.quiescentB s)}" :: acc).reverse
+  | a :: as, acc =>
+    let echo := mlmEcho s a
+    let s' := MLM.step s a
+    match s'.err with
+    | some e => (s!"err {e}" :: echo :: acc).reverse
+    | none =>
+      match a with
+      | .tick _ => mlmRun s' as (echo :: acc)
+      | _ =>
+        let newR := (s'.replies.take (s'.replies.length - s.replies.length)).reverse
+        let acc := echo :: acc
+        let acc := newR.foldl (fun acc r => s!"reply {r.op} {r.txt}" :: acc) acc
+        mlmRun s' as (mlmState s' :: acc)
+
 def parseActs (body : List String) : List Act := body.filterMap fun l => parseAct (toks l)
 
 def judgeOut (r : Option String) : List String :=
@@ -156,6 +201,10 @@ def handle (hdr : List String) (body : List String) : List String :=
     chRun (Chain.init (craq == "1") (natD n)) (natD nk) (parseActs body) []
   | ["ml", _variant, n, nk] =>
     mlRun (ML.init (natD n) (natD nk)) (parseActs body) []
+  | ["ml", _variant, n, nk, res] =>
+    if res == "union" then mlmRun (MLM.init (natD n) (natD nk) .union) (parseActs body) []
+    else if res == "max" then mlmRun (MLM.init (natD n) (natD nk) .vmax) (parseActs body) []
+    else mlRun (ML.init (natD n) (natD nk)) (parseActs body) []
   | ["judge-pb", mode, nb] =>
     let (steps, q) := Spec.parseSteps body
     judgeOut (Spec.judgePB mode (natD nb) steps q)
@@ -165,6 +214,9 @@ def handle (hdr : List String) (body : List String) : List String :=
   | ["judge-ml"] =>
     let (steps, q) := Spec.parseSteps body
     judgeOut (Spec.judgeML steps q)
+  | ["judge-ml", n, merging] =>
+    let (steps, q) := Spec.parseSteps body
+    judgeOut (Spec.judgeMLn (natD n) (merging == "1") steps q)
   | _ => ["bad-header"]
 
 end HappyModel.C17.Driver
